@@ -27,6 +27,13 @@ const HARD_CAP: usize = 3 << 30;
 const DECODE_FACTOR: u32 = 30;
 const FOLLOWUP_FACTOR: u32 = 200;
 
+/// Path of the harness binary built with coset's `std` feature (COSIM_STD_EXE overrides it, for
+/// sweeps that run from a private copy of the binaries).
+fn std_exe() -> &'static str {
+    static P: std::sync::OnceLock<String> = std::sync::OnceLock::new();
+    P.get_or_init(|| std::env::var("COSIM_STD_EXE").unwrap_or_else(|_| "/verif/target/std/release/cosim".to_string()))
+}
+
 fn size_cap(tier: Tier) -> usize {
     match tier {
         Tier::Quick => 64 << 10,
@@ -324,7 +331,7 @@ impl Engine for C01 {
     fn configurations(&self) -> Vec<Config> {
         vec![
             Config { name: "std:off", exe: None, share: (1, 1) },
-            Config { name: "std:on", exe: Some("/verif/target/std/release/cosim"), share: (1, 4) },
+            Config { name: "std:on", exe: Some(std_exe()), share: (1, 4) },
         ]
     }
     fn gen(&self, seed: u64, run: u64, tier: Tier) -> Trace {
